@@ -35,6 +35,7 @@ PINS = [
     'mesonbuild.mtest:TestHarness._run_tests',
     'mesonbuild.mtest:TestHarness.run_tests',
     'mesonbuild.mtest:TestHarness.doit',
+    'mesonbuild.mtest:TestHarness.__init__',
     'mesonbuild.mtest:TestHarness.process_test_result',
     'mesonbuild.mtest:TestHarness.is_bad_result',
     'mesonbuild.mtest:TestHarness.total_failure_count',
@@ -57,14 +58,23 @@ PINS = [
     'mesonbuild.mtest:complete',
     'mesonbuild.mtest:complete_all',
     'mesonbuild.mtest:test_slice',
+    'mesonbuild.mtest:JsonLogfileBuilder.log',
 ]
 TRUSTED = [
     'asyncio (CPython 3.12): cooperative scheduling — code between two awaits is atomic; Semaphore, wait, Task.cancel',
     'in-process stream: SingleTestRunner._run_subprocess and TestSubprocess._kill are replaced by a fake process '
     '(virtual-clock timer, real StreamReader); real process spawning / process-group killing is exercised only '
     'by the end-to-end stream with real `meson test`',
-    'SIGINT / SIGTERM handlers of _run_tests, --gdb / --interactive, benchmarks, test setups (--setup), --wrapper and '
-    'positional test-name arguments (fnmatch) are outside the model and are not generated',
+    'SIGINT / SIGTERM handlers of _run_tests, --gdb, benchmarks, test setups (--setup; so the branch '
+    '`timeout_multiplier is None` of the time-limit rule is modelled but reachable only through --setup), --wrapper and '
+    'positional test-name arguments (fnmatch) are outside the model and are not generated; --interactive only in the '
+    'time-limit arithmetic stream',
+    'reporting stream: the harness object is built by the real TestHarness constructor (only load_metadata replaced), '
+    'its logger list is replaced by a recording logger + a real JsonLogfileBuilder, counters are only read; '
+    '`maxfail_reached` is switched on by the stream at chosen points (the rule that chooses the point lives in the '
+    'closure run_test and is exercised by the in-process scheduler stream and the real-command streams); the oracle '
+    'judges only sequences _run_tests can produce, the other placements are compared with the model only',
+    'time-limit arithmetic: multipliers k/4 only (float product exact); limit vs duration on the virtual clock',
     'TAP classification is checked on a hand-labelled set of streams only (C18 owns the TAP parser)',
     'liveness of a test\'s child processes (process group killed on timeout / cancellation) is not in the Lean model: '
     'it is decided by the heartbeat oracle of the end-to-end liveness leg only (harness/c12_live.py)',
@@ -93,45 +103,164 @@ TAP_LABEL = dict(TAPS)
 
 # ------------------------------------------------------------------ generated tables
 
+class AdapterError(Exception):
+    """the implementation no longer has the shape an adapter relies on (never a verdict, never a crash)"""
+
+
+def adapter_failed(ctx: Ctx, name: str, detail: T.Any) -> None:
+    """a failed adapter = a failed obligation (once per adapter) -> the failing-input search runs"""
+    key = 'adapter:' + name
+    if not any(o.startswith(key) for o in ctx.obligations_failed):
+        ctx.obligation_failed(key, str(detail)[:300])
+    ctx.tag('adapter-failed:' + name)
+
+
+class ReportHarness:
+    """a real `TestHarness` built by its real constructor (only `load_metadata` is replaced: no build directory),
+    with the logger list replaced by a recording logger and a real `JsonLogfileBuilder`.  Nothing is assumed about
+    how the harness stores its counters: they are only ever *read*, through `c12_inproc.read_counts`."""
+
+    def __init__(self, wd: str, jsonlog: bool = True):
+        import argparse
+        import contextlib
+        import io
+        from mesonbuild import mtest
+        from . import c12_inproc
+        self.mtest = mtest
+        try:
+            class Harness(mtest.TestHarness):
+                def load_metadata(self) -> None:
+                    class BD:
+                        project_name = 'p'
+                        test_setups: dict = {}
+                        test_setup_default_name = ''
+                    self.build_data = BD()
+                    self.tests = []
+            parser = argparse.ArgumentParser(prog='meson test')
+            mtest.add_arguments(parser)
+            opts = parser.parse_args(['--no-rebuild', '-C', wd, '--num-processes', '1'])
+            opts.logbase = None
+            with contextlib.redirect_stdout(io.StringIO()):
+                self.h = Harness(opts)
+
+            outer = self
+
+            class Rec(mtest.TestLogger):
+                def log(self, harness, result) -> None:
+                    outer.logged.append(result.res.name)
+            self.logged: T.List[str] = []
+            self.jpath = os.path.join(wd, f'report-{os.getpid()}.json') if jsonlog else None
+            loggers: T.List[T.Any] = [Rec()]
+            if self.jpath:
+                loggers.append(mtest.JsonLogfileBuilder(self.jpath))
+            self.jlog = loggers[-1] if self.jpath else None
+            self.h.loggers[:] = loggers
+            self.test = c12_inproc.make_tests(mtest, {'tests': [{'name': 'x', 'suite': ['p'], 'par': True}]})[0]
+        except Exception as e:
+            raise AdapterError(f'constructing TestHarness: {type(e).__name__}: {e}')
+
+    def process(self, resname: str) -> T.Optional[str]:
+        """one real `process_test_result` call on a real TestRun whose classification is `resname`"""
+        mtest = self.mtest
+        try:
+            run = mtest.TestRun(self.test, {}, 'x', None, True, False, False)
+            run.start(['x'])
+            run.res = mtest.TestResult[resname]
+            run.returncode = 0
+            if run.res is not mtest.TestResult[resname]:
+                raise AdapterError('TestRun.res cannot be set')
+        except AdapterError:
+            raise
+        except Exception as e:
+            raise AdapterError(f'building a TestRun: {type(e).__name__}: {e}')
+        try:
+            self.h.process_test_result(run)
+        except SystemExit:
+            return 'exit'
+        return None
+
+    def reach_maxfail(self) -> None:
+        """what `run_test` does when --maxfail is reached (the flag only; cancellation is the scheduler's part)"""
+        try:
+            self.h.maxfail_reached = True
+            if self.h.maxfail_reached is not True:
+                raise AdapterError('maxfail_reached does not read back True')
+        except AdapterError:
+            raise
+        except Exception as e:
+            raise AdapterError(f'maxfail_reached: {type(e).__name__}: {e}')
+
+    def counts(self) -> T.Dict[str, int]:
+        from . import c12_inproc
+        c = c12_inproc.read_counts(self.h)
+        if isinstance(c, str):
+            raise AdapterError(c)
+        return c
+
+    def observe(self) -> dict:
+        from . import c12_inproc
+        out: dict = {'counts': self.counts(), 'logged': list(self.logged)}
+        try:
+            out['total_failures'] = int(self.h.total_failure_count())
+            out['summary_text'] = self.h.summary()
+            out['printed'] = c12_inproc.parse_summary(out['summary_text'])
+            out['collected'] = [r.res.name for r in self.h.collected_failures]
+            out['flag'] = bool(self.h.maxfail_reached)
+        except Exception as e:
+            raise AdapterError(f'reading the report: {type(e).__name__}: {e}')
+        if self.jlog is not None:
+            try:
+                self.jlog.close()
+                jl = []
+                for line in open(self.jpath, encoding='utf-8'):
+                    if line.strip():
+                        j = json.loads(line)
+                        jl.append((j['result'], bool(j['is_fail'])))
+                out['json'] = jl
+            except Exception as e:
+                raise AdapterError(f'testlog.json: {type(e).__name__}: {e}')
+            finally:
+                try:
+                    os.unlink(self.jpath)
+                except OSError:
+                    pass
+        return out
+
+
 def gen_tables(ctx: Ctx) -> None:
     from mesonbuild import mtest
+    from . import c12_inproc
     TR = mtest.TestResult
     members = [m.name for m in TR]
 
     def lst(xs):
         return '[' + ', '.join('"%s"' % x for x in xs) + ']'
 
-    class Stub:
-        pass
-    table = []
-    for m in TR:
-        h = mtest.TestHarness.__new__(mtest.TestHarness)
-        names = ['fail_count', 'expectedfail_count', 'unexpectedpass_count', 'success_count', 'skip_count',
-                 'ignored_count', 'timeout_count']
-        for n in names:
-            setattr(h, n, 0)
-        h.collected_failures = []
-        h.loggers = []
-        h.maxfail_reached = False
-        r = Stub()
-        r.res = m
-        try:
-            mtest.TestHarness.process_test_result(h, r)
-            hit = [n for n in names if getattr(h, n) == 1]
-            table.append((m.name, hit[0] if len(hit) == 1 else 'multiple'))
-        except SystemExit:
-            table.append((m.name, 'exit'))
-    # total_failure_count: which counters it sums (probe each counter with 1)
-    tf = []
-    for n in ['fail_count', 'expectedfail_count', 'unexpectedpass_count', 'success_count', 'skip_count',
-              'ignored_count', 'timeout_count']:
-        h = mtest.TestHarness.__new__(mtest.TestHarness)
-        for k in ['fail_count', 'expectedfail_count', 'unexpectedpass_count', 'success_count', 'skip_count',
-                  'ignored_count', 'timeout_count']:
-            setattr(h, k, 0)
-        setattr(h, n, 1)
-        if mtest.TestHarness.total_failure_count(h) == 1:
-            tf.append(n)
+    base = common.scratch_dir('mverif-c12g-')
+    try:
+        # which counter `process_test_result` bumps for each member, and whether `total_failure_count` counts it:
+        # observed on a harness built by the real constructor (counters are read, never written)
+        names = [a for _k, a in c12_inproc.COUNTER_ATTRS]
+        key_of = {k: a for k, a in c12_inproc.COUNTER_ATTRS}
+        table = []
+        counted: T.Dict[str, T.Set[bool]] = {}
+        for m in TR:
+            rh = ReportHarness(base, jsonlog=False)
+            before = rh.counts()
+            if rh.process(m.name) == 'exit':
+                table.append((m.name, 'exit'))
+                continue
+            after = rh.counts()
+            hit = [key_of[k] for k in after if after[k] - before[k] == 1]
+            other = [k for k in after if after[k] - before[k] not in (0, 1)]
+            table.append((m.name, hit[0] if len(hit) == 1 and not other else 'multiple' if hit or other else 'none'))
+            if len(hit) == 1:
+                counted.setdefault(hit[0], set()).add(int(rh.h.total_failure_count()) == 1)
+        # total_failure_count: the counters it sums ("inconsistent" if members of one counter disagree)
+        tf = [n for n in names if counted.get(n) == {True}] + \
+             [n + ':inconsistent' for n in names if counted.get(n) == {True, False}]
+    finally:
+        common.rmtree(base)
     lines = [
         '/- GENERATED by harness/c12.py gen_tables from the live `mesonbuild.mtest` module; do not edit. -/',
         '', 'namespace MesonModel.Sched.Generated', '',
@@ -235,9 +364,15 @@ def behaviour(case: dict, idx: int, it: int):
     return b[0], b[1], (b[2] if len(b) > 2 else '')
 
 
-def eff_timeout(t: dict) -> T.Optional[int]:
+def eff_timeout(t: dict, case: T.Optional[dict] = None) -> T.Optional[float]:
+    """documented: `timeout: 0` / negative = no limit; `--timeout-multiplier m` scales it, m <= 0 = no limit"""
     to = t.get('to')
-    return to if to is not None and to > 0 else None
+    if to is None or to <= 0:
+        return None
+    m = case.get('tmult') if case else None
+    if m is None:
+        return to
+    return to * m if m > 0 else None
 
 
 def oracle_run(case: dict, res: dict) -> T.List[T.Tuple[str, str]]:
@@ -311,7 +446,7 @@ def oracle_run(case: dict, res: dict) -> T.List[T.Tuple[str, str]]:
         i, it = k
         t = tests[i]
         dur, rc, out = behaviour(case, i, it)
-        to = eff_timeout(t)
+        to = eff_timeout(t, case)
         if k not in results:
             bad.append(('not-reported', f'test {i} iteration {it} started but no result was reported'))
             continue
@@ -349,8 +484,11 @@ def oracle_run(case: dict, res: dict) -> T.List[T.Tuple[str, str]]:
     tally = {k: 0 for k in COUNT_KEYS}
     for r, _rc in results.values():
         tally[GROUP.get(r, 'ok')] += 1
-    if res['counts'] != tally:
+    if res.get('counts') is not None and res['counts'] != tally:
         bad.append(('tally', f'harness counters {res["counts"]} differ from the tally of the reported results {tally}'))
+    if sel and sum(res['summary'].values()) != len(results):
+        bad.append(('totals-add-up', f'printed totals {res["summary"]} add up to {sum(res["summary"].values())} but '
+                    f'{len(results)} tests were run and reported'))
     printed = {k: res['summary'].get(k, 0) for k in COUNT_KEYS}
     if printed != tally and sel:
         bad.append(('printed-totals', f'printed totals {res["summary"]} differ from the tally of the reported results {tally}'))
@@ -436,11 +574,24 @@ def compare_with_model(ctx: Ctx, case: dict, res: dict, ans_trace: T.Optional[st
             results[it * n + pos[i]] = extra[0]
     impl_st = [('D:' + results[k]) if k in results else '-' for k in range(len(st))]
     model_st = [s if s.startswith('D:') else '-' for s in st]
-    impl_tally = ','.join(str(res['counts'][k]) for k in COUNT_KEYS)
+    impl_tally = ','.join(str(res['counts'][k]) for k in COUNT_KEYS) if res.get('counts') is not None else rest.get('tally')
+    impl_jobs = str(res.get('eff_jobs')) if res.get('eff_jobs') is not None else rest.get('jobs')
     if impl_st != model_st or rest.get('tally') != impl_tally or rest.get('exit') != str(res.get('exit')) or \
-            rest.get('jobs') != str(res.get('eff_jobs')) or rest.get('main') != 'finished':
+            rest.get('jobs') != impl_jobs or rest.get('main') != 'finished':
         ctx.disagreement({'kind': 'final-state', 'case': case, 'model': ans_trace,
                           'impl': {'st': impl_st, 'tally': impl_tally, 'exit': res.get('exit'), 'jobs': res.get('eff_jobs')}})
+    # the reporting state: maxfail_reached, collected_failures, and the printed totals against the number of results
+    impl_rep = {}
+    if res.get('flag') is not None:
+        impl_rep['flag'] = str(int(res['flag']))
+        impl_rep['maxfail_reached'] = str(int(res['flag']))
+    if res.get('collected') is not None:
+        impl_rep['collected'] = ','.join(res['collected']) or '-'
+    if res.get('summary'):
+        impl_rep['printed_total'] = str(sum(res['summary'].values()))
+    if any(rest.get(k) != v for k, v in impl_rep.items()):
+        ctx.disagreement({'kind': 'report-state', 'case': case, 'model': {k: rest.get(k) for k in impl_rep},
+                          'impl': impl_rep})
 
 
 # ------------------------------------------------------------------ generators
@@ -496,6 +647,8 @@ def rand_case(rng, big: bool = False) -> dict:
     if rng.random() < 0.15:
         nsl = rng.randint(1, n + 1)
         case['slice'] = [rng.randint(1, nsl), nsl]
+    if rng.random() < 0.15:
+        case['tmult'] = rng.choice([-1.0, 0.0, 0.5, 1.0, 1.5, 2.0, 2.5])
     if case['repeat'] > 1 and rng.random() < 0.5:
         beh = {}
         for i in range(n):
@@ -528,6 +681,14 @@ def adversarial_cases() -> T.Iterable[dict]:
                'repeat': 3, 'maxfail': 0}
         yield {'tests': [mk_test(0, True, 3, 1), mk_test(1, True, 3, 2), mk_test(2, True, 3, 99), mk_test(3, True, 4)],
                'jobs': jobs, 'repeat': 1, 'maxfail': 2}
+        # the N-th failure arrives while longer tests are in flight; a timeout among the killed; repeat + maxfail
+        for mf in (1, 2, 3):
+            yield {'tests': [mk_test(0, True, 9), mk_test(1, True, 1, 1), mk_test(2, True, 9, 0, sf=True),
+                             mk_test(3, True, 2, 99), mk_test(4, True, 3, 2), mk_test(5, True, 9, 0, to=3),
+                             mk_test(6, True, 0, 77), mk_test(7, True, 9)], 'jobs': max(jobs, 2) + 3, 'repeat': 1,
+                   'maxfail': mf}
+            yield {'tests': [mk_test(0, True, 4), mk_test(1, True, 1, 1), mk_test(2, True, 4, 1)],
+                   'jobs': jobs + 1, 'repeat': 2, 'maxfail': mf}
         yield {'tests': [mk_test(0, True, 5, 0, to=2), mk_test(1, False, 5, 0, to=5), mk_test(2, True, 1, 0, to=1),
                          mk_test(3, True, 0, 77, sf=True), mk_test(4, True, 1, 99, sf=True)], 'jobs': jobs,
                'repeat': 1, 'maxfail': 0}
@@ -598,6 +759,8 @@ def check_batch(ctx: Ctx, cases: T.List[dict], base: str, tagname: str) -> int:
     slots: T.List[T.Tuple[int, int]] = []
     for case, res in zip(cases, results):
         ctx.count()
+        for ae in res.get('adapter_error') or []:
+            adapter_failed(ctx, 'inproc-' + ae.split(':')[0], ae)
         for kind, msg in oracle_run(case, res):
             report(ctx, kind, msg, case)
         # oracle: selection rule
@@ -621,6 +784,12 @@ def check_batch(ctx: Ctx, cases: T.List[dict], base: str, tagname: str) -> int:
             ctx.tag('opt:repeat')
         if case.get('maxfail', 0):
             ctx.tag('opt:maxfail')
+            if res.get('flag'):
+                ctx.tag('maxfail:reached')
+                if any(e[0] == 'result' and e[4][0] == 'INTERRUPT' for e in res.get('events', [])):
+                    ctx.tag('maxfail:reached-with-tests-in-flight')
+        if case.get('tmult') is not None:
+            ctx.tag('opt:timeout-multiplier')
         for (kind, *_r) in res.get('events', []):
             if kind == 'kill':
                 ctx.tag('event:kill')
@@ -705,49 +874,248 @@ def direct_classification(ctx: Ctx) -> None:
                 ctx.disagreement({'kind': 'classify', 'line': line, 'impl': a, 'model': b})
 
 
-def direct_tallies(ctx: Ctx) -> None:
+def oracle_report(ops: T.List[str], obs: dict) -> T.List[T.Tuple[str, str]]:
+    """the statement on one driven reporting run: 'the printed totals and testlog.json equal the tally of those
+    classifications, and the exit status is non-zero iff some test failed, errored, timed out or unexpectedly
+    passed' — for the results processed, wherever the --maxfail flag came on"""
+    bad = []
+    rs = [o for o in ops if o != '!']
+    tally = {k: 0 for k in COUNT_KEYS}
+    for r in rs:
+        tally[GROUP[r]] += 1
+    if obs['counts'] != tally:
+        bad.append(('tally', f'harness counters {obs["counts"]} differ from the tally {tally} of the processed results'))
+    printed = {k: obs['printed'].get(k, 0) for k in COUNT_KEYS}
+    if printed != tally:
+        bad.append(('printed-totals', f'printed totals {obs["printed"]} differ from the tally {tally} of the processed results'))
+    if sum(obs['printed'].values()) != len(rs):
+        bad.append(('totals-add-up', f'printed totals add up to {sum(obs["printed"].values())} but {len(rs)} results were processed'))
+    if 'ok' not in obs['printed'] or 'fail' not in obs['printed']:
+        bad.append(('printed-totals', 'summary lacks the Ok / Fail rows'))
+    if obs['logged'] != rs:
+        bad.append(('logged', f'loggers were handed {obs["logged"]}, processed {rs}'))
+    if 'json' in obs:
+        if [j[0] for j in obs['json']] != rs:
+            bad.append(('testlog-json', f'testlog.json has {[j[0] for j in obs["json"]]}, processed {rs}'))
+        for r, isf in obs['json']:
+            if isf != (r in BAD):
+                bad.append(('testlog-json', f'is_fail={isf} for result {r}'))
+    want_exit = 1 if any(r in BAD for r in rs) else 0
+    if (1 if obs['total_failures'] > 0 else 0) != want_exit:
+        bad.append(('exit-status', f'total_failure_count {obs["total_failures"]} (exit status '
+                    f'{1 if obs["total_failures"] > 0 else 0}) for processed results {rs}'))
+    return bad
+
+
+def reachable_ops(ops: T.List[str]) -> bool:
+    """can `_run_tests` produce this sequence for some --maxfail N >= 1?  `run_test` switches the flag on right after
+    it processed a bad result with fail_count >= N, i.e. after a bad result when at least one FAIL / ERROR / INTERRUPT
+    has been counted.  Only such sequences are judged by the oracle; the others are compared with the model only."""
+    nfail, last = 0, None
+    for o in ops:
+        if o == '!':
+            if last is None or last not in BAD or nfail < 1:
+                return False
+        else:
+            last = o
+            if GROUP[o] == 'fail':
+                nfail += 1
+    return True
+
+
+def report_ops(ctx: Ctx) -> T.List[T.List[str]]:
+    """result sequences with the --maxfail flag coming on at every point: exhaustive for up to 2 results, every
+    flag position on a fixed mixed sequence, then random"""
     from mesonbuild import mtest
     rng = ctx.rng
     names = [m.name for m in mtest.TestResult if m.is_finished()]
-    lines, impl = [], []
+    out: T.List[T.List[str]] = [[]]
+    for n in (1, 2):
+        for rs in itertools.product(names, repeat=n):
+            for pos in range(-1, n + 1):
+                ops = list(rs)
+                if pos >= 0:
+                    ops.insert(pos, '!')
+                out.append(ops)
+    mixed = ['OK', 'FAIL', 'INTERRUPT', 'TIMEOUT', 'INTERRUPT', 'SKIP', 'ERROR', 'INTERRUPT', 'EXPECTEDFAIL',
+             'UNEXPECTEDPASS', 'IGNORED', 'INTERRUPT']
+    for pos in range(len(mixed) + 1):
+        out.append(mixed[:pos] + ['!'] + mixed[pos:])
     for _ in range(ctx.scale(400, 4000)):
-        rs = [rng.choice(names) for _ in range(rng.randint(0, 12))]
-        h = mtest.TestHarness.__new__(mtest.TestHarness)
-        for n in ['fail_count', 'expectedfail_count', 'unexpectedpass_count', 'success_count', 'skip_count',
-                  'ignored_count', 'timeout_count']:
-            setattr(h, n, 0)
-        h.collected_failures = []
-        h.loggers = []
-        h.maxfail_reached = False
-        for r in rs:
-            class R:
-                res = mtest.TestResult[r]
-            mtest.TestHarness.process_test_result(h, R())
-        counts = [h.success_count, h.expectedfail_count, h.fail_count, h.unexpectedpass_count, h.skip_count,
-                  h.ignored_count, h.timeout_count]
-        exit_ = 1 if h.total_failure_count() > 0 else 0
-        summ = mtest.TestHarness.summary(h)
-        from .c12_inproc import parse_summary, SUMMARY_KEYS
-        ps = parse_summary(summ)
-        order = list(SUMMARY_KEYS.values())
-        rows = ' '.join(f'{order.index(k)}:{v}' for k, v in sorted(ps.items(), key=lambda kv: order.index(kv[0])))
-        impl.append('%s;%d;%s;1' % (','.join(map(str, counts)), exit_, rows))
-        lines.append('tally ' + ' '.join(rs))
+        rs = [rng.choice(names + ['INTERRUPT', 'INTERRUPT', 'FAIL']) for _ in range(rng.randint(0, 12))]
+        for _k in range(rng.choice([0, 1, 1, 1, 2])):
+            spots = [i + 1 for i in range(len(rs)) if reachable_ops(rs[:i + 1] + ['!'])]
+            if spots and rng.random() < 0.75:
+                rs.insert(rng.choice(spots), '!')       # where `run_test` can switch the flag on
+            else:
+                rs.insert(rng.randint(0, len(rs)), '!')
+        out.append(rs)
+    return out
+
+
+def direct_report(ctx: Ctx, base: str) -> None:
+    """the real `process_test_result / is_bad_result / summary / total_failure_count / JsonLogfileBuilder.log` driven
+    with result sequences that include the maxfail transition, on a harness built by the real constructor"""
+    from .c12_inproc import SUMMARY_KEYS
+    order = list(SUMMARY_KEYS.values())
+    lines, impl, cases = [], [], []
+    for ops in report_ops(ctx):
+        try:
+            rh = ReportHarness(base)
+            ended = None
+            for o in ops:
+                if o == '!':
+                    rh.reach_maxfail()
+                else:
+                    ended = rh.process(o) or ended
+            obs = rh.observe()
+        except AdapterError as e:
+            adapter_failed(ctx, 'report', e)
+            if sum(1 for o in ctx.obligations_failed if o.startswith('adapter:')) and ctx.dist.get('adapter-failed:report', 0) > 20:
+                break       # the shape changed: no point in repeating the same failure thousands of times
+            continue
         ctx.count()
-        ctx.tag('direct:tally')
-        # oracle
-        tally = {k: 0 for k in COUNT_KEYS}
-        for r in rs:
-            tally[GROUP[r]] += 1
-        if counts != [tally[k] for k in COUNT_KEYS] or {k: ps.get(k, 0) for k in COUNT_KEYS} != tally:
-            ctx.violation('tally:' + ','.join(rs), f'counters {counts} / printed {ps} differ from the tally {tally}',
-                          {'stream': 'tally', 'results': rs})
-        if exit_ != (1 if any(r in BAD for r in rs) else 0):
-            ctx.violation('exit:' + ','.join(rs), f'exit status {exit_} for results {rs}', {'stream': 'tally', 'results': rs})
-    if ctx.model_available:
+        ctx.tag('direct:report')
+        if '!' in ops:
+            ctx.tag('direct:report-flag')
+            i = ops.index('!')
+            if 'INTERRUPT' in ops[i:]:
+                ctx.tag('direct:report-interrupt-after-flag')
+        if reachable_ops(ops):
+            ctx.tag('direct:report-reachable')
+        for kind, msg in (oracle_report(ops, obs) if reachable_ops(ops) else []):
+            ctx.violation('report:' + kind + ':' + ','.join(ops), msg, {'stream': 'report', 'ops': ops, 'kind': kind,
+                                                                        'observed': {k: v for k, v in obs.items() if k != 'summary_text'}})
+        c = obs['counts']
+        rows = ' '.join(f'{order.index(k)}:{v}' for k, v in sorted(obs['printed'].items(), key=lambda kv: order.index(kv[0])))
+        impl.append('%s;%d;%s;%s;%d;%s;%d' % (
+            ','.join(str(c[k]) for k in COUNT_KEYS), 1 if obs['total_failures'] > 0 else 0, rows,
+            ','.join(obs['collected']) or '-', int(obs['flag']), ','.join(obs['logged']) or '-',
+            sum(obs['printed'].values())))
+        lines.append('report 0|' + ' '.join(ops))
+        cases.append(ops)
+    if ctx.model_available and lines:
         for line, a, b in zip(lines, impl, ctx.driver('sched', lines)):
             if a != b:
-                ctx.disagreement({'kind': 'tally', 'line': line, 'impl': a, 'model': b})
+                ctx.disagreement({'kind': 'report', 'line': line, 'impl': a, 'model': b})
+
+
+def o_limit(to: T.Optional[int], mult: T.Optional[float], interactive: bool = False) -> T.Optional[float]:
+    """Unit-tests.md: `timeout: 0` or a negative value = infinite duration; `--timeout-multiplier` scales the limit,
+    `<= 0` disables it; interactive runs have no time limit"""
+    if interactive or to is None or to <= 0:
+        return None
+    if mult is None:
+        return float(to)
+    if mult <= 0:
+        return None
+    return to * mult
+
+
+def direct_limits(ctx: Ctx, base: str) -> None:
+    """`SingleTestRunner.__init__` time-limit arithmetic on the real class (through the real `get_test_runner`), then
+    one-test runs of the real harness: a test that outlives its limit is TIMEOUT, one that ends before is classified
+    by its exit status, a disabled limit never fires"""
+    import argparse
+    import contextlib
+    import io
+    from fractions import Fraction
+    from mesonbuild import mtest
+    from . import c12_inproc
+    wd = os.path.join(base, 'lim')
+    os.makedirs(os.path.join(wd, 'meson-logs'), exist_ok=True)
+    tos = [None, -5, -1, 0, 1, 2, 3, 30]
+    mults = [None, -1.0, 0.0, 0.25, 0.5, 1.0, 1.5, 2.0, 2.5]
+    lines, impl = [], []
+
+    def frac(m: T.Optional[float]) -> str:
+        if m is None:
+            return ''
+        f = Fraction(m)
+        return f'{f.numerator}/{f.denominator}'
+
+    for to in tos:
+        for m in mults:
+            for inter in (False, True):
+                case = {'tests': [mk_test(0, True, 0, to=to)], 'jobs': 1, 'tmult': m}
+                try:
+                    class Harness(mtest.TestHarness):
+                        def load_metadata(self) -> None:
+                            class BD:
+                                project_name = 'p'
+                                test_setups: dict = {}
+                                test_setup_default_name = ''
+                            self.build_data = BD()
+                            self.tests = c12_inproc.make_tests(mtest, case)
+                    parser = argparse.ArgumentParser()
+                    mtest.add_arguments(parser)
+                    opts = parser.parse_args(c12_inproc.cli_args(case, wd) + (['--interactive'] if inter else []))
+                    opts.logbase = None
+                    with contextlib.redirect_stdout(io.StringIO()):
+                        with Harness(opts) as th:
+                            runner = th.get_test_runner(th.tests[0], 0)
+                            got = runner.timeout
+                    if got is not None and not isinstance(got, (int, float)):
+                        raise AdapterError(f'SingleTestRunner.timeout is {type(got).__name__}')
+                except AdapterError as e:
+                    adapter_failed(ctx, 'limit', e)
+                    continue
+                except Exception as e:
+                    adapter_failed(ctx, 'limit', f'{type(e).__name__}: {e}')
+                    continue
+                ctx.count()
+                ctx.tag('direct:limit')
+                want = o_limit(to, m, inter)
+                if (got is None) != (want is None) or (got is not None and float(got) != want):
+                    ctx.violation(f'limit:to={to}:mult={m}:interactive={inter}',
+                                  f'timeout: {to} with --timeout-multiplier {m} (interactive={inter}) gives the limit '
+                                  f'{got}, documented rule says {want}',
+                                  {'stream': 'limit', 'to': to, 'mult': m, 'interactive': inter})
+                lines.append('limit %d|%s|%s|0' % (int(inter), '' if to is None else to, frac(m)))
+                if got is None:
+                    impl.append('none')
+                else:
+                    f = Fraction(got)
+                    fm = Fraction(m) if m is not None else Fraction(1)
+                    # the model keeps the multiplier's denominator
+                    impl.append(f'{f * fm.denominator}/{fm.denominator}' if (f * fm.denominator).denominator == 1 else f'{f}')
+    # whole runs: limit against duration
+    runs: T.List[dict] = []
+    for to in tos:
+        for m in mults:
+            for dur in (0, 1, 2, 3, 5, 8, 76):
+                if dur == 76 and to != 30:
+                    continue
+                for rc, sf in ((0, False), (1, False), (1, True)):
+                    runs.append({'tests': [mk_test(0, True, dur, rc, to=to, sf=sf)], 'jobs': 1, 'repeat': 1, 'maxfail': 0,
+                                 'tmult': m})
+    if not ctx.deep:
+        runs = [r for i, r in enumerate(runs) if i % 3 == ctx.seed % 3]
+    results = run_cases(runs, base)
+    lines2 = []
+    got2 = []
+    for case, res in zip(runs, results):
+        ctx.count()
+        ctx.tag('direct:limit-run')
+        for kind, msg in oracle_run(case, res):
+            report(ctx, kind, msg, case)
+        if res.get('error') or res.get('adapter_error'):
+            continue
+        t = case['tests'][0]
+        rr = [e[4][0] for e in res['events'] if e[0] == 'result']
+        lines2.append('limit 0|%s|%s|%d' % ('' if t['to'] is None else t['to'], frac(case['tmult']), t['dur']))
+        got2.append((case, rr[0] if len(rr) == 1 else repr(rr)))
+    if ctx.model_available:
+        for line, a, b in zip(lines, impl, ctx.driver('sched', lines)):
+            if a != b.split(';')[0]:
+                ctx.disagreement({'kind': 'limit', 'line': line, 'impl': a, 'model': b})
+        for line, (case, got), b in zip(lines2, got2, ctx.driver('sched', lines2)):
+            w = b.split(';')[1]
+            t = case['tests'][0]
+            by_exit = sorted(o_classify_exit(t['rc'], t.get('sf', False), None))
+            want = ['TIMEOUT'] if w == 'timedOut' else by_exit if w == 'exited' else ['TIMEOUT'] + by_exit
+            if got not in want:
+                ctx.disagreement({'kind': 'limit-run', 'line': line, 'case': case, 'impl': got, 'model': b})
 
 
 def direct_selection(ctx: Ctx, base: str) -> None:
@@ -1104,6 +1472,78 @@ def e2e_cancel_race(ctx: Ctx, runs: int) -> None:
         common.rmtree(base)
 
 
+def inflight_project(rng) -> T.Tuple[dict, dict]:
+    """a project for `--maxfail N` with tests in flight: long parallel sleepers listed first (they are running when
+    the N-th failure arrives and must be terminated), N quick failures, and a few tests of the other classes"""
+    nsleep = rng.randint(2, 4)
+    maxfail = rng.choice([1, 1, 2])
+    tests: T.List[dict] = []
+    for _ in range(nsleep):
+        t = mk_test(len(tests), True, 30.0, 0)
+        if rng.random() < 0.3:
+            t['sf'] = True
+        tests.append(t)
+    for j in range(maxfail):
+        tests.append(mk_test(len(tests), True, 0.6 + 0.4 * j, rng.choice([1, 2, 99])))
+    extra = [mk_test(0, True, 0.0, 0), mk_test(0, True, 0.05, 77), mk_test(0, True, 0.0, 1, sf=True),
+             mk_test(0, True, 0.1, 0, sf=True), mk_test(0, True, 0.0, 3, ee=3)]
+    rng.shuffle(extra)
+    for t in extra[:rng.randint(1, 4)]:
+        t['name'] = f't{len(tests)}'
+        tests.append(t)
+    for t in tests:
+        t['suite'] = []
+    return {'tests': tests}, {'jobs': len(tests) + rng.randint(0, 2), 'maxfail': maxfail}
+
+
+def e2e_maxfail_inflight(ctx: Ctx, nruns: int) -> None:
+    """real `meson test --maxfail N` cut short while other tests are running: the printed summary is compared with
+    testlog.json (and with the test programs' own start log): every started test is in testlog.json, the printed
+    totals equal the tally of the testlog.json results and add up to their number, exit status 1"""
+    rng = ctx.rng
+    base = common.scratch_dir('mverif-c12m-')
+    try:
+        for ri in range(nruns):
+            proj, o = inflight_project(rng)
+            src, bld, log = os.path.join(base, f'p{ri}'), os.path.join(base, f'b{ri}'), os.path.join(base, f'log{ri}.txt')
+            write_project(src, proj, log)
+            p = meson_cmd(['setup', '--backend=none', bld, src], base)
+            if p.returncode != 0:
+                raise common.ToolFailure('meson setup failed: ' + p.stdout[-600:])
+            p = meson_cmd(['test', '--no-rebuild', '-C', bld, '--num-processes', str(o['jobs']),
+                           '--maxfail', str(o['maxfail'])], base)
+            loglines = open(log).read().split('\n')[:-1] if os.path.exists(log) else []
+            jl = []
+            jpath = os.path.join(bld, 'meson-logs', 'testlog.json')
+            if os.path.exists(jpath):
+                for line in open(jpath, encoding='utf-8'):
+                    if line.strip():
+                        j = json.loads(line)
+                        jl.append({'name': j['name'], 'result': j['result'], 'returncode': j['returncode'],
+                                   'iter': int(j['env'].get('MESON_TEST_ITERATION', '1')) - 1})
+            ctx.count()
+            ctx.tag('e2e:maxfail-inflight')
+            ninter = sum(1 for j in jl if j['result'] == 'INTERRUPT')
+            ctx.tag('e2e:maxfail-inflight-interrupted-tests', ninter)
+            if not ninter:
+                ctx.tag('e2e:maxfail-inflight-vacuous')      # machine too slow / too fast: nothing was in flight
+            sel = list(range(len(proj['tests'])))
+            case = {'stream': 'e2e-maxfail-inflight', 'project': proj, 'opts': o, 'seed': ctx.seed}
+            from .c12_inproc import parse_summary
+            ps = parse_summary(p.stdout)
+            bad = e2e_oracle(proj, o, p, loglines, jl, sel)
+            if jl and sum(ps.values()) != len(jl):
+                bad.append(('totals-add-up', f'printed totals {ps} add up to {sum(ps.values())} but testlog.json '
+                            f'reports {len(jl)} tests: {[(j["name"].split(":")[-1], j["result"]) for j in jl]}'))
+            for kind, msg in bad:
+                ctx.violation('e2e:' + kind + ':' + json.dumps([proj, o], sort_keys=True), msg,
+                              dict(case, kind=kind, stdout=p.stdout[-800:], log=loglines[:40]))
+            if bad:
+                return
+    finally:
+        common.rmtree(base)
+
+
 def e2e_stream(ctx: Ctx, nproj: int, nruns: int) -> None:
     rng = ctx.rng
     base = common.scratch_dir('mverif-c12-')
@@ -1227,7 +1667,10 @@ def run(ctx: Ctx) -> None:
                 'up to 3 (quick) / 4 (thorough) tests, adversarial families for jobs 1..5, random cases with '
                 '--repeat/--maxfail/--suite/--slice/timeouts/should_fail/TAP; a trace is non-trivial when it has more '
                 'than two events, counted distinct by (event sequence with results, jobs). Plus exhaustive '
-                'classification table, random tallies, suite/slice selections, and real `meson test` runs.')
+                'classification table, reporting-state runs (result sequences x every point at which --maxfail is reached, on a '
+                'harness built by the real constructor, with a real testlog.json writer), time-limit arithmetic grid '
+                '(timeout x --timeout-multiplier x --interactive x duration), suite/slice selections, and real `meson test` '
+                'runs incl. --maxfail cutting a run with tests in flight (printed summary against testlog.json).')
     ctx.assumptions += TRUSTED
     base = common.scratch_dir('mverif-c12i-')
     validated = 0
@@ -1237,13 +1680,15 @@ def run(ctx: Ctx) -> None:
         validated += check_batch(ctx, [rand_case(rng) for _ in range(ctx.scale(2500, 30000))], base, 'gen:random')
         validated += check_batch(ctx, [rand_case(rng, big=True) for _ in range(ctx.scale(500, 6000))], base, 'gen:random-big')
         direct_classification(ctx)
-        direct_tallies(ctx)
+        direct_report(ctx, base)
+        direct_limits(ctx, base)
         direct_selection(ctx, base)
     finally:
         common.rmtree(base)
     ctx.extra['traces_validated_against_impl'] = ctx.extra.get('traces_validated_against_impl', 0) + validated
     e2e_stream(ctx, ctx.scale(1, 10), ctx.scale(3, 7))
     e2e_cancel_race(ctx, ctx.scale(2, 6))
+    e2e_maxfail_inflight(ctx, ctx.scale(2, 8))
     from . import c12_live
     c12_live.run_leg(ctx, ctx.deep)
     ctx.exhaustive = False
@@ -1295,7 +1740,8 @@ def search(ctx: Ctx, disagreements: T.List[dict]) -> None:
         ctx.model_available = False
         try:
             direct_classification(ctx)
-            direct_tallies(ctx)
+            direct_report(ctx, base)
+            direct_limits(ctx, base)
             direct_selection(ctx, base)
         finally:
             ctx.model_available = model
@@ -1326,6 +1772,27 @@ def replay(ctx: Ctx, rep: dict) -> None:
         from . import c12_live
         c12_live.run_leg(ctx, True)
         print('violations:', [v['what'] for v in ctx.violations])
+    elif case.get('stream') == 'e2e-maxfail-inflight':
+        e2e_maxfail_inflight(ctx, 4)
+        print('violations:', [v['what'] for v in ctx.violations])
+    elif case.get('stream') == 'report':
+        base = common.scratch_dir('mverif-c12r-')
+        try:
+            rh = ReportHarness(base)
+            for o in case['ops']:
+                rh.reach_maxfail() if o == '!' else rh.process(o)
+            obs = rh.observe()
+            print('ops:', case['ops'])
+            print('observed:', {k: v for k, v in obs.items() if k != 'summary_text'})
+            print('oracle:', oracle_report(case['ops'], obs))
+            if ctx.model_available:
+                print('model :', ctx.driver('sched', ['report 0|' + ' '.join(case['ops'])])[0])
+        except AdapterError as e:
+            print('adapter failed:', e)
+        finally:
+            common.rmtree(base)
+    elif case.get('stream') == 'limit':
+        print('documented rule:', o_limit(case['to'], case['mult'], case['interactive']))
     elif case.get('stream') == 'e2e-cancel-race':
         e2e_cancel_race(ctx, 3)
         print('violations:', [v['what'] for v in ctx.violations])
